@@ -25,7 +25,7 @@ RULE = (
     "l.v1/l.v2 = key/row -> value/column, creation order = input order (observable as the suffix order of each "
     "vertex's links); every vertex's prior links and universes are an unchanged prefix; read-back through "
     "neighbors() and find_links reproduces the adjacency (symmetric closure for undirected types).  A matrix that loaded fine is edited in place into a non-square one and loaded again (same object).  Error inputs "
-    "raise ValueError with every input vertex's snapshot unchanged.  Non-trivial = >= 3 pairs and (a self entry, a "
+    "raise ValueError with every input vertex's snapshot unchanged.  Half of the cases run with neighbor caching on and warm caches (the builders must leave the cache consistent).  Non-trivial = >= 3 pairs and (a self entry, a "
     "repeated entry or a prior link); distinct = distinct case value."
 )
 ASSUMPTIONS = [
@@ -50,7 +50,7 @@ def strategy(tier):
     d = st.builds(
         lambda nv, rows, cls, prior, pu, itkind: {
             "t": "dict", "nv": nv, "rows": [[k % nv, [x % nv for x in vals]] for k, vals in rows], "cls": cls,
-            "prior": [list(p) for p in prior], "prior_uni": [x % nv for x in pu], "itkind": itkind,
+            "prior": [list(p) for p in prior], "prior_uni": [x % nv for x in pu], "itkind": itkind, "cache": bool(itkind & 1) ^ bool(cls & 1),
         },
         st.integers(1, 5),
         st.lists(st.tuples(st.integers(0, 4), st.lists(st.integers(0, 4), max_size=5)), max_size=5),
@@ -59,7 +59,7 @@ def strategy(tier):
     m = st.builds(
         lambda n, cells, cls, prior, bad, badpos, pu: {
             "t": "matrix", "n": n, "cells": [[c % len(CELLS) for c in row[:n]] + [0] * (n - len(row[:n])) for row in (cells[:n] + [[]] * (n - len(cells[:n])))],
-            "cls": cls, "prior": [list(p) for p in prior], "bad": bad, "badpos": badpos, "prior_uni": [x % max(n, 1) for x in pu],
+            "cls": cls, "prior": [list(p) for p in prior], "bad": bad, "badpos": badpos, "prior_uni": [x % max(n, 1) for x in pu], "cache": bool(badpos & 1) ^ bool(cls & 2),
         },
         st.integers(0, 5),
         st.lists(st.lists(st.integers(0, 13), max_size=5), max_size=5),
@@ -87,6 +87,11 @@ def _setup(nv, prior, prior_uni, universe_last=True):
     pu = Universe()
     for k in prior_uni:
         pu.add_vertex(vs[k % nv])
+    from edgegraph.traversal import helpers
+
+    for v in vs:     # warm the neighbor caches (no effect with caching off)
+        for d in (0, 1, 2):
+            helpers.neighbors(v, d, helpers.LNK_UNKNOWN_NEIGHBOR)
     return vs, outside, pu
 
 
@@ -125,6 +130,29 @@ def _check_built(u, vs, before, order, pairs, cls, known_universes):
         suffix = [(vi.get(id(l.v1)), vi.get(id(l.v2))) for l in v.links[len(before[i][0]):]]
         exps = [p for p in pairs if i in p]
         require(suffix == exps, "creation-order", f"vertex {i}: new links in order {suffix}, input order {exps}")
+    # read-back of the WHOLE neighbourhood with plain (cacheable) queries: prior links + new links, in v.links order
+    G_all = None
+    from eglib import graphs as _g
+
+    all_links = []
+    for v in vs:
+        for l in v.links:
+            if all(l is not y for y in all_links):
+                all_links.append(l)
+    pool = list(vs) + [x for l in all_links for x in l.vertices if x is not None and all(x is not y for y in vs)]
+    uniq = []
+    for x in pool:
+        if all(x is not y for y in uniq):
+            uniq.append(x)
+    G_all = _g.abstract(uniq, all_links)
+    from eglib.model import ref_neighbors as _rn
+
+    pi = {id(x): k for k, x in enumerate(uniq)}
+    for i, v in enumerate(vs):
+        for d in (0, 1, 2):
+            got = [pi.get(id(x), "?") for x in helpers.neighbors(v, d, helpers.LNK_UNKNOWN_NEIGHBOR)]
+            exp = _rn(G_all, pi[id(v)], d, 1, None)
+            require(got == exp, "readback-neighbors", f"vertex {i} direction {d}: plain neighbors() gives {got}, the links say {exp}")
     # read-back through the query API (new links only: filter on identity)
     newids = {id(l) for l in new}
     kind = C.KIND[want]
@@ -259,6 +287,11 @@ def check_matrix(case):
 
 
 def check_case(case):
-    if case["t"] == "dict":
-        return check_dict(case)
-    return check_matrix(case)
+    from eglib import trav
+
+    # builders must leave the neighbor cache consistent too: half of the cases run with caching on, and the
+    # vertices' neighbours are queried BEFORE the build so that warm entries exist
+    with trav.caching(case.get("cache")):
+        if case["t"] == "dict":
+            return check_dict(case)
+        return check_matrix(case)
